@@ -606,6 +606,8 @@ class _IntVec:
             return self.vals[ix]
         if isinstance(ix, _IntVec):
             return _IntVec([v for v, m in zip(self.vals, ix.vals) if m])
+        if isinstance(ix, slice):
+            return _IntVec(self.vals[ix])
         raise Unsupported("vector index")
 
     def skv_setitem(self, ix, v):
